@@ -10,6 +10,7 @@ import Scico.Proofs.Estim
 import Scico.Proofs.EstimNorms
 import Scico.Proofs.EstimConv
 import Scico.Proofs.EstimMat
+import Scico.Proofs.EstimZero
 import Mathlib.Analysis.InnerProductSpace.Adjoint
 import Mathlib.Analysis.InnerProductSpace.Spectrum
 
@@ -523,6 +524,31 @@ theorem C17_padmm_est (cA cB fac : ℝ) (hA : 0 < cA) (hB : 0 < cB) (hf : 1 < fa
 theorem C17_nlpadmm_est (cJx cJz fac : ℝ) (hx : 0 < cJx) (hz : 0 < cJz) (hf : 1 < fac) :
     cJx ^ 2 < (padmmEst cJx cJz (some fac)).1 ∧ cJz ^ 2 < (padmmEst cJx cJz (some fac)).2 :=
   ⟨(C17_padmm_est cJx cJz fac hx hz hf).1, (C17_padmm_est cJx cJz fac hx hz hf).2.1⟩
+
+/-! ### the estimators at a zero norm estimate (zero operator, `C17_zero_exact`) — what the code does there
+
+Over the IEEE-extended reals (`XR ℝ`: `1/0 = +inf`, `inf·0 = NaN`, NaN-false comparisons).  These are *negation
+witnesses*: for the zero operator the documented strict inequalities are not satisfied (known finding
+`estimators-zero-operator`); `C17_pdhg_est`, `C17_padmm_est`, `C17_nlpadmm_est` assume a positive estimate. -/
+
+section zero
+open Scico.StepSize Scico.StepSize.XR
+
+/-- `PDHG.estimate_parameters` for a norm estimate `0`: `τ = σ = +inf` (any factor, also disabled), and
+    `τ·σ·c²` is NaN, not `< 1`. -/
+theorem C17_pdhg_est_zero (ratio fac : ℝ) (hr : 0 < ratio) (hf : 0 < fac) :
+    pdhgEst (fin 0 : XR ℝ) (fin ratio) (some (fin fac)) = (pinf, pinf) ∧
+    pdhgEst (fin 0 : XR ℝ) (fin ratio) none = (pinf, pinf) ∧
+    ¬ ((pinf : XR ℝ) * pinf * (fin 0 * fin 0) < 1) :=
+  ⟨pdhgEst_zero ratio fac hr hf, pdhgEst_zero_none ratio hr, pdhg_product_zero⟩
+
+/-- `ProximalADMM` / `NonLinearPADMM.estimate_parameters` for norm estimates `0`: `μ = ν = 0` whatever the factor, so
+    `μ > ‖A‖²` (`0 > 0`) does not hold. -/
+theorem C17_padmm_est_zero (fac : Option ℝ) :
+    padmmEst (fin 0 : XR ℝ) (fin 0) (fac.map fin) = (fin 0, fin 0) ∧ ¬ ((fin 0 * fin 0 : XR ℝ) < fin 0) :=
+  ⟨padmmEst_zero fac, padmm_not_gt_zero⟩
+
+end zero
 
 /-! ### non-vacuity -/
 
